@@ -10,7 +10,7 @@ META = {
         "text": "Kernel-checked: for all event sequences of the models, every internal event after the closed mark decreases a measure and a waiting Close is never blocked (close_terminates, full, via the message-tracking invariant; group_run_terminates on the GroupRun model; termination in finitely many steps given each network call returns), calls arriving after Close get io.ErrClosedPipe / io.EOF, cancelled blocked calls can return the context error, at CloseReturn every accepted message had its Completion and no goroutine/connection of the model is live; D1 documented by a decide-checked stuck state of the unrepaired step relation. Wall-clock bounds are observed by watchdogs only (partial).",
         "design_ref": "DESIGN.md §7 C08,C07,C01,C09(Writer) and C09 — Reader / ConsumerGroup / Transport part",
     },
-    "level_note": "Trusted: Lean kernel; propext/Classical.choice/Quot.sound; the hand-written LTS models (regenerated tie: 27 structural facts of the close protocol re-extracted by go/ast from writer.go/reader.go/consumergroup.go/transport.go on every run, Props/C09 proves they all hold and instantiates Cfg.fixed with the extracted fact; otherwise the models follow the source by hand and are tied by trace acceptance — existential over unobserved events for the Writer/Reader, deterministic over hook events for ConsumerGroup.run and Transport connections — internal events are existentially quantified by the oracle's state-set simulation, so an implementation whose internal order differs but whose observable behaviour is allowed is accepted); the Go runtime (WaitGroup, channels, timers) is modelled; the fakes (message-level RoundTripper, byte-level broker over net.Pipe); goroutine census by stack inspection. 'Bounded time' is a watchdog observation, not a theorem.",
+    "level_note": "Trusted: Lean kernel; propext/Classical.choice/Quot.sound; the hand-written LTS models (regenerated tie: 45 structural facts of the close protocol re-extracted by go/ast from writer.go/reader.go/consumergroup.go/transport.go/dialer.go on every run, Props/C09 proves they all hold and instantiates Cfg.fixed with the extracted fact; the Writer clause (safety, deadlock-freedom, termination measure) is also proved on the writer builder's Model/Writer.lean, which C01/C07/C08 tie by replaying W.* hook traces one event at a time; otherwise the models follow the source by hand and are tied by trace acceptance — existential over unobserved events for the Writer/Reader, deterministic over hook events for ConsumerGroup.run and Transport connections — internal events are existentially quantified by the oracle's state-set simulation, so an implementation whose internal order differs but whose observable behaviour is allowed is accepted); the Go runtime (WaitGroup, channels, timers) is modelled; the fakes (message-level RoundTripper, byte-level broker over net.Pipe); goroutine census by stack inspection. 'Bounded time' is a watchdog observation, not a theorem.",
 }
 
 MODULE = "KafkaVerif.Props.C09"
@@ -50,14 +50,19 @@ def run(ctx):
             m = re.match(r"(\w+) scenario (\d+)", want)
             if m:
                 env["VERIF_C09_ONLY"] = "%s:%s" % (m.group(1), m.group(2))
-        lines, rc, err = ctx.run_driver(drv, ["all"], env=env)
+        lines, rc, err = ctx.run_driver(drv, ["all"], env=env, timeout=(900 if ctx.tier == "thorough" else 300))
         crashed = None
         if rc != 0:
             last = re.findall(r"^scenario (\w+) (\d+)$", err, re.M)
-            pan = re.search(r"^(panic: .*|fatal error: .*)$", err, re.M)
+            pan = re.search(r"^(panic: .*|fatal error: .*|driver c09: no progress for 60 s)", err, re.M)
             if last and pan:
-                # the code under test died while this scenario ran: a concrete failing schedule
-                crashed = {"op": last[-1][0], "n": last[-1][1], "why": pan.group(1)[:300]}
+                # the code under test died (or the scenario hung past every bound) while this scenario ran: a concrete failing schedule
+                why = pan.group(1)[:300]
+                if why.startswith("driver c09"):
+                    # where the driver itself is blocked
+                    frames = re.findall(r"^main\.(\w+)\(.*\n\t\S*/(\w+\.go:\d+)", err, re.M)
+                    why += "; blocked in: " + ", ".join("%s %s" % f for f in frames[:8])
+                crashed = {"op": last[-1][0], "n": last[-1][1], "why": why}
             else:
                 broken.append({"kind": "obligation", "name": "driver c09 crashed", "detail": err[-1500:]})
         dis = ctx.correspond(lines, orc, "writer.go/reader.go/consumergroup.go/transport.go ↔ Model/WriterClose.lean, Model/ReaderClose.lean (observed-trace acceptance + monitor)")
